@@ -160,7 +160,10 @@ def plan(tier, seed):
 
 def shard(ctx):
     eq = CfgEquiv(ctx, ninputs=ctx.params["ninputs"], end_to_end=True)
-    prof = StreamProfile(knobs_fn=knobs, script_len=ctx.params["script_len"], op_weights=weights())
+    from ..templates import t_config_flow
+
+    prof = StreamProfile(knobs_fn=knobs, script_len=ctx.params["script_len"], op_weights=weights(), templates=t_config_flow)
+    prof.template_prob = 0.4
     run_stream(ctx, prof, [eq, CallEqvMonitor(ctx, eq)])
 
 
